@@ -2,7 +2,9 @@ package main
 
 import (
 	"bytes"
+	"encoding/csv"
 	"fmt"
+	"os"
 	"sort"
 	"strings"
 
@@ -10,6 +12,7 @@ import (
 
 	"golang.org/x/perf/benchfmt"
 	"golang.org/x/perf/benchproc"
+	"golang.org/x/perf/benchunit"
 	vb "golang.org/x/perf/cmd/benchstat/verifbridge"
 	"verifharness/internal/hx"
 )
@@ -458,8 +461,203 @@ func c16BenchFiles(r *hx.Rng) (string, [][]string) {
 	return col, files
 }
 
+// ---------- text vs CSV of the same benchtab.Table (kind 3) ----------
+
+func c16Errs(es []error) hx.Sx {
+	var ss []string
+	for _, e := range es {
+		ss = append(ss, e.Error())
+	}
+	return hx.SList(ss)
+}
+
+// c16Zeroize rewrites the measurements of one unit in a file to val with
+// probability p per line (zero / negative values: no geomean for that column).
+func c16Zeroize(r *hx.Rng, content, unit, val string, p float64) string {
+	lines := strings.Split(content, "\n")
+	for i, l := range lines {
+		if !strings.HasPrefix(l, "Benchmark") || !r.Chance(p) {
+			continue
+		}
+		f := strings.Fields(l)
+		for j := 3; j < len(f); j += 2 {
+			if f[j] == unit {
+				f[j-1] = val
+			}
+		}
+		lines[i] = strings.Join(f, " ")
+	}
+	return strings.Join(lines, "\n")
+}
+
+// c16TableCase records, for one real benchtab.Table: the abstract table (all
+// formatted strings taken from the real Table: number formatting is an oracle,
+// the model is about placement), the text ToText wrote and the CSV records and
+// warnings ToCSV wrote (CSV parsed back with encoding/csv).
+func c16TableCase(t *vb.Table, startRow int) (hx.Sx, bool, error) {
+	cls := benchunit.ClassOf(t.Unit)
+	var fields []*benchproc.Field
+	if len(t.Cols) > 0 {
+		fields = t.Cols[0].Projection().FlattenedFields()
+	}
+	var colkeys []hx.Sx
+	for _, c := range t.Cols {
+		var vs []string
+		for _, f := range fields {
+			vs = append(vs, c.Get(f))
+		}
+		colkeys = append(colkeys, hx.SList(vs))
+	}
+	var rows []hx.Sx
+	for _, rk := range t.Rows {
+		sc := t.RowScaler(rk, cls)
+		var cells []hx.Sx
+		for _, ck := range t.Cols {
+			cell, ok := t.Cells[vb.TableKey{Row: rk, Col: ck}]
+			if !ok {
+				cells = append(cells, hx.L())
+				continue
+			}
+			cmp := hx.L()
+			if cell.Baseline != nil {
+				cmp = hx.L(hx.L(hx.S(cell.Comparison.FormatDelta(cell.Baseline.Summary.Center, cell.Summary.Center)),
+					hx.S(cell.Comparison.String()), c16Errs(cell.Comparison.Warnings)))
+			}
+			cells = append(cells, hx.L(hx.L(hx.S(fmt.Sprint(cell.Summary.Center)), hx.S(sc.Format(cell.Summary.Center)),
+				hx.S(cell.Summary.PctRangeString()), c16Errs(cell.Sample.Warnings), c16Errs(cell.Summary.Warnings), cmp)))
+		}
+		rows = append(rows, hx.L(hx.S(rk.StringValues()), hx.List(cells)))
+	}
+	var sums []hx.Sx
+	noGeo := false
+	for i, ck := range t.Cols {
+		ts, ok := t.Summary[ck]
+		if !ok {
+			sums = append(sums, hx.L())
+			continue
+		}
+		if i > 0 && !ts.HasSummary {
+			noGeo = true
+		}
+		sums = append(sums, hx.L(hx.L(hx.Bool(ts.HasSummary), hx.S(fmt.Sprint(ts.Summary)), hx.S(benchunit.Scale(ts.Summary, cls)),
+			hx.Bool(ts.HasRatio), hx.S(fmt.Sprintf("%+.2f%%", (ts.Ratio-1)*100)), c16Errs(ts.Warnings))))
+	}
+	var text, cbuf, wbuf bytes.Buffer
+	if err := t.ToText(&text, false); err != nil {
+		return hx.Sx{}, false, err
+	}
+	cw := csv.NewWriter(&cbuf)
+	n := t.ToCSV(cw, startRow, &wbuf)
+	cw.Flush()
+	rd := csv.NewReader(&cbuf)
+	rd.FieldsPerRecord = -1
+	recs, err := rd.ReadAll()
+	if err != nil {
+		return hx.Sx{}, false, err
+	}
+	var recx []hx.Sx
+	for _, rec := range recs {
+		recx = append(recx, hx.SList(rec))
+	}
+	abs := hx.L(hx.S(t.Unit), hx.S(t.SummaryLabel), hx.I(len(fields)), hx.List(colkeys), hx.List(rows), hx.List(sums))
+	return hx.L(abs, hx.I(startRow), hx.S(text.String()), hx.List(recx), hx.I(n), hx.S(wbuf.String())), noGeo, nil
+}
+
+type c16TC struct {
+	Kind  string  `json:"kind"`
+	Input bsInput `json:"input"`
+}
+
+func c16AddTextCSV(o *hx.Out, r *hx.Rng, dir string) error {
+	in, fl := genBsInput(r)
+	// extra weight on tables with >= 2 columns: at least two files, and (often)
+	// no per-file configuration lines, so that the files share their tables
+	for try := 0; try < 4 && len(in.Files) < 2 && r.Chance(0.85); try++ {
+		in, fl = genBsInput(r)
+	}
+	if r.Chance(0.6) {
+		for i := range in.Files {
+			var keep []string
+			for _, l := range strings.Split(in.Files[i].Content, "\n") {
+				if strings.HasPrefix(l, "goos:") || strings.HasPrefix(l, "pkg:") || strings.HasPrefix(l, "note:") || strings.HasPrefix(l, "goarch:") {
+					continue
+				}
+				keep = append(keep, l)
+			}
+			in.Files[i].Content = strings.Join(keep, "\n")
+		}
+	}
+	// extra weight: zero / negative measurements in one file (no geomean in that column)
+	if z := r.Intn(4); z < 2 && len(in.Files) > 0 {
+		fi := r.Intn(len(in.Files))
+		if len(in.Files) > 1 && r.Chance(0.7) {
+			fi = 1 + r.Intn(len(in.Files)-1) // a non-baseline column
+		}
+		val := []string{"0", "-5", "0", "-0.25"}[r.Intn(4)]
+		in.Files[fi].Content = c16Zeroize(r, in.Files[fi].Content, bsUnits[r.Intn(len(bsUnits))], val, []float64{1, 0.5, 0.2}[r.Intn(3)])
+		if r.Chance(0.5) {
+			in.Files[fi].Content = c16Zeroize(r, in.Files[fi].Content, bsUnits[r.Intn(len(bsUnits))], val, 1)
+		}
+	}
+	// extra weight: multi-level / repeating column headers
+	if r.Chance(0.3) {
+		fl.col = []string{".file,/fmt", "goos,.file", "/fmt,/n", "goos,/fmt", "goos"}[r.Intn(5)]
+		if fl.row != "" && fl.row != ".name" {
+			fl.row = ""
+		}
+		if fl.table != "" && fl.table != "pkg" {
+			fl.table = ""
+		}
+		fl.ignore = ""
+		in.Flags = fl.args()
+	}
+	return c16RunTextCSV(o, dir, in, fl)
+}
+
+func c16RunTextCSV(o *hx.Out, dir string, in bsInput, fl bsFlags) error {
+	if err := writeBsFiles(dir, in); err != nil {
+		return err
+	}
+	run := runBenchstatInProc(dir, in, fl)
+	if run.err != nil {
+		o.Count("textcsv:pipeline-error")
+		return nil
+	}
+	var tags []string
+	var tabs []hx.Sx
+	startRow := 1
+	anyNoGeo := false
+	multi := false
+	for _, t := range run.tables.Tables {
+		startRow++ // the table-key header line Tables.ToCSV writes
+		tc, noGeo, err := c16TableCase(t, startRow)
+		if err != nil {
+			return err
+		}
+		tabs = append(tabs, tc)
+		anyNoGeo = anyNoGeo || noGeo
+		multi = multi || len(t.Cols) > 1
+		if len(t.Cols) >= 8 && len(tags) == 0 {
+			// CSV column 26 and beyond carry cell references
+			tags = append(tags, "csv_col_ge_26")
+			o.Count("textcsv:csv_col_ge_26")
+		}
+		o.Count(fmt.Sprintf("textcsv:cols=%d", min(len(t.Cols), 4)))
+		o.Count(fmt.Sprintf("textcsv:rows=%d", min(len(t.Rows), 4)))
+		if len(t.Cols) > 0 {
+			o.Count(fmt.Sprintf("textcsv:colfields=%d", min(len(t.Cols[0].Projection().FlattenedFields()), 3)))
+		}
+		startRow += len(t.Rows) + 8
+	}
+	if anyNoGeo {
+		o.Count("textcsv:nonbaseline-col-without-geomean")
+	}
+	o.Add(hx.L(hx.I(3), hx.List(tabs)), c16TC{Kind: "text-vs-csv", Input: in}, fmt.Sprint(in), multi, tags...)
+	return nil
+}
+
 func genC16(o *hx.Out, r *hx.Rng, tier string, replay string) error {
-	o.Rule = "benchtab: the real parse->Builder->ToTables->Table.ToText pipeline on 1-3 generated files (random/disjoint benchmark subsets, 1-7 samples, 1-2 units, -col .file | /format | .file,/format | goos): right borders of all header lines aligned, bars nested, no text beyond the border, no trailing blanks. texttab: random API call sequences (1-8 rows, 1-10 columns, spans 1-6 wider/narrower than the cells beneath, shrink patterns 0/30/60/100% incl. all-shrink spans, empty/blank cells, multi-byte text, margins) and benchstat-shaped tables with missing benchmarks; KeyHeader: random key slices over 1-4 fields with small value domains (incl. empty values, repeated non-adjacent prefixes). non-trivial = table has a multi-column span / header merges at least one pair of keys"
+	o.Rule = "text vs CSV: C14-style generated benchstat inputs (1-3 files, flag grid, missing cells, units with/without metadata, single-row tables) with extra zero/negative measurements (columns without geomean), run in process; per table the real ToText text and the real ToCSV records+warnings are compared cell by cell. benchtab: the real parse->Builder->ToTables->Table.ToText pipeline on 1-3 generated files (random/disjoint benchmark subsets, 1-7 samples, 1-2 units, -col .file | /format | .file,/format | goos): right borders of all header lines aligned, bars nested, no text beyond the border, no trailing blanks. texttab: random API call sequences (1-8 rows, 1-10 columns, spans 1-6 wider/narrower than the cells beneath, shrink patterns 0/30/60/100% incl. all-shrink spans, empty/blank cells, multi-byte text, margins) and benchstat-shaped tables with missing benchmarks; KeyHeader: random key slices over 1-4 fields with small value domains (incl. empty values, repeated non-adjacent prefixes). non-trivial = table has a multi-column span / header merges at least one pair of keys"
 	n := 3000
 	if tier == "thorough" {
 		n = 150000
@@ -497,6 +695,41 @@ func genC16(o *hx.Out, r *hx.Rng, tier string, replay string) error {
 	for i := 0; i < nb; i++ {
 		col, files := c16BenchFiles(r)
 		if err := c16AddBench(o, col, files); err != nil {
+			return err
+		}
+	}
+	ntc := 250
+	if tier == "thorough" {
+		ntc = 5000
+	}
+	dir, err := os.MkdirTemp(os.Getenv("VERIF_WORK"), "c16in")
+	if err != nil {
+		return err
+	}
+	defer os.RemoveAll(dir)
+	// witnesses: 8 columns (warnings referring to CSV column 27 = "AB"), and a
+	// non-baseline column without geomean (zero measurement)
+	{
+		var b strings.Builder
+		for n := 1; n <= 8; n++ {
+			fmt.Fprintf(&b, "BenchmarkX/n=%d 1 %d ns/op\n", n, 10*n)
+		}
+		w1 := bsInput{Files: []bsFile{{Name: "f0.txt", Content: b.String()}}}
+		fl1 := bsFlags{col: "/n", row: ".name", alpha: -1, confidence: -1}
+		w1.Flags = fl1.args()
+		if err := c16RunTextCSV(o, dir, w1, fl1); err != nil {
+			return err
+		}
+		w2 := bsInput{Files: []bsFile{
+			{Name: "f0.txt", Content: "BenchmarkA 1 10 ns/op\nBenchmarkA 1 11 ns/op\nBenchmarkB 1 20 ns/op\nBenchmarkB 1 21 ns/op\n"},
+			{Name: "f1.txt", Content: "BenchmarkA 1 0 ns/op\nBenchmarkA 1 0 ns/op\nBenchmarkB 1 20 ns/op\nBenchmarkB 1 22 ns/op\n"}}}
+		fl2 := bsFlags{alpha: -1, confidence: -1}
+		if err := c16RunTextCSV(o, dir, w2, fl2); err != nil {
+			return err
+		}
+	}
+	for i := 0; i < ntc; i++ {
+		if err := c16AddTextCSV(o, r.Split(), dir); err != nil {
 			return err
 		}
 	}
